@@ -2,8 +2,8 @@
 CHECK = {
  'level': 'exploration',
  'exhaustive': False,
- 'rule': 'history i (120 quick / 3000 thorough per part) = one user, 4 documents, 3 channels, 2 role names (the first role exists from the start, the second '
-         'in half of the histories) with identifiers carrying i, on a database shared by 10 histories; setup (roles, user with random admin_channels / '
+ 'rule': 'history i (120 quick / 1500 thorough per part, i.e. 240 / 3000 over the two client models) = one user, 4 documents, 3 channels, 2 role names (the first role exists from the start, the second '
+         'in half of the histories) with identifiers carrying i, on a database shared by 10 histories (sequence batching suspended as in the repository\'s revocation tests; in every other database each write is followed by a wait for the change cache, in the others rapid principal rewrites leave skipped sequences and the resume tokens carry a low-sequence part); setup (roles, user with random admin_channels / '
          'admin_roles, 4 documents with random channels and, through the body-driven sync function channel(doc.ch); access(doc.grant_to, doc.grant_ch); '
          'role(doc.role_to, doc.role), random channel grants to the user or a role and role grants to the user), a first pull, then 20 seeded steps: '
          'document rewrite / move to other channels (incl. none) / change of the grants it carries / delete / re-create, user admin_channels, user '
@@ -21,8 +21,18 @@ CHECK = {
  ],
  'min_evals': 800,
  'min_counters': {
-   'rest.histories_completed': 100,
-   'rest.pulls_checked': 400,
+   'rest.histories_completed': 60, 'rest.pulls_checked': 400, 'rest.model_channels_validated': 400, 'rest.model_visibility_validated': 1600,
+   'rest.revoked_rows': 80, 'rest.revocations_checked': 80, 'rest.revoked_docs_fetch_refused': 60, 'rest.removed_rows': 40, 'rest.deleted_rows': 30,
+   'rest.backfill_rows': 250, 'rest.paged_pulls': 200, 'rest.pages': 600, 'rest.fetch_removal_stub': 15,
+   'rest.pulls_after_access_loss': 30, 'rest.pulls_after_access_gain_on_unchanged_doc': 20, 'rest.pulls_after_role_deletion': 50,
+   'rest.pulls_after_loss_and_regrant': 70, 'rest.pulls_after_losing_one_of_several_sources': 70, 'rest.docs_visible_through_several_sources': 400,
+   'rest.pulls_ending_with_low_sequence_token': 80,
+   'blip.histories_completed': 60, 'blip.pulls_checked': 400, 'blip.model_channels_validated': 400,
+   'blip.blip_clients_cbmobile_3': 60, 'blip.blip_clients_cbmobile_4': 60,
+   'blip.revoked_rows': 80, 'blip.revocations_checked': 80, 'blip.removed_rows': 20, 'blip.deleted_rows': 20, 'blip.backfill_rows': 250,
+   'blip.revisions_received': 400, 'blip.blip_removed_bodies': 15,
+   'blip.pulls_after_access_loss': 30, 'blip.pulls_after_role_deletion': 50, 'blip.pulls_after_loss_and_regrant': 70,
+   'blip.pulls_after_losing_one_of_several_sources': 70,
  },
  'assumptions': [
    'the harness DocModel/AccessModel is the reference for "the user can see d now": effective channels = admin_channels of the user + access() grants of '
@@ -32,7 +42,11 @@ CHECK = {
    'histories are sequential: no write is concurrent with a pull, and the change cache has caught up before each pull',
    'the REST client fetches every listed non-deleted, non-revoked revision as the user (GET doc?rev=) and purges on a removal stub or 403/404; the BLIP '
    'client is the repository\'s BlipTesterClient, whose local store is purged together with the replica so that it asks again for revisions it had to give up',
-   'a norev leaves the replica unchanged',
+   'a norev leaves the replica unchanged; a BLIP changes row flagged "removed" (removed from all the user\'s channels) purges without looking at the revision',
+   'the BLIP client asks only for the last listed revision of a document when one changes message lists the document several times (the BlipTesterClient '
+   'otherwise fails its own assertions on duplicate / older copies); rows it declines are applied as "already held"',
+   'recognised history shapes get one signature each (C13|<rest|blip>|<kind>|<shape>); everything else is reported as "unclassified" with the document kind, '
+   'direct/role access and the paging class in the signature',
  ],
 }
 
